@@ -67,6 +67,7 @@ func Inject(r *rand.Rand, c *cfg.Config, kind string, n int) {
 		default:
 			addRef(r, pickService(r, c), choose2(r, "%"+name+"%", "x%"+name+"%", "%%%"+name+"%%%", "%%x%%y%%%"+name+"%z", "%"+name+"%-%"+name+"%"))
 		}
+		twins(r, c, name, "", false)
 	case "missing-service":
 		name := fmt.Sprintf("nopeS%d", n)
 		if r.Intn(4) == 0 && len(c.Decorators) > 0 {
@@ -79,6 +80,7 @@ func Inject(r *rand.Rand, c *cfg.Config, kind string, n int) {
 		if r.Intn(3) == 0 {
 			addRef(r, sv, "@"+name) // the same dangling reference twice: two diagnostics, possibly identical and adjacent
 		}
+		twins(r, c, name, "@"+name, true)
 	case "missing-mixed":
 		// one fresh service whose constructor arguments alone (no calls, no fields) hold dangling references of BOTH
 		// classes next to defined ones, in a random order
@@ -144,6 +146,28 @@ func Inject(r *rand.Rand, c *cfg.Config, kind string, n int) {
 		}
 	case "token":
 		c.Params = append(c.Params, cfg.KV{K: fmt.Sprintf("tok%d", n), V: cfg.Str(choose2(r, "%unclosed", "%unknownFn()%", "%1 2%"))})
+	}
+}
+
+// twins plants things that look like the missing definition but are not: a definition of the OTHER kind with the same
+// name (parameter x next to a dangling @x, service x next to a dangling %x%), a parameter whose text equals the dangling
+// service reference, and enough unrelated parameters that there are at least as many parameters as services.
+func twins(r *rand.Rand, c *cfg.Config, name, refText string, missingIsService bool) {
+	switch r.Intn(4) {
+	case 0:
+		if missingIsService {
+			c.Params = append(c.Params, cfg.KV{K: name, V: cfg.Str("a parameter, not a service")})
+			for i := 0; len(c.Params) < len(c.Services)+r.Intn(3); i++ {
+				c.Params = append(c.Params, cfg.KV{K: fmt.Sprintf("pad%s%d", name, i), V: cfg.Int(int64(i))})
+			}
+		} else {
+			c.Services = append(c.Services, cfg.Service{Name: name, Constructor: cfg.P(`"fixt/pa".New`)})
+		}
+	case 1:
+		if refText != "" {
+			// the very same text as a parameter value: there it is a plain string
+			c.Params = append(c.Params, cfg.KV{K: "twin" + name, V: cfg.Str(refText)})
+		}
 	}
 }
 
